@@ -24,7 +24,8 @@ StepEv(acc, k, c, P) ==
       pf == ParseFile(e.stream, c.hs, c.inflate)
       at(name) == name \o "@" \o ToString(k)
       fail(name) == [acc EXCEPT !.bad = at(name)]
-  IN IF ~pf.ok THEN (IF pf.why \in {"H.inflate"} THEN fail("H.inflate")
+  IN IF e.op # "write" /\ e.raised THEN fail("C07.op_raised")
+     ELSE IF ~pf.ok THEN (IF pf.why \in {"H.inflate"} THEN fail("H.inflate")
                      ELSE IF pf.why = "H.schematext" THEN fail("C07.header") ELSE fail("C07.layout"))
      ELSE
      LET logged == BlockRecs(pf)
